@@ -43,6 +43,10 @@ PRODUCERS = [
      ["Rec{n}(1)", "Rec{n}(1).b", "Rec{n}"]),
     ("enum", 1, "import enum\nclass Color{n}(enum.Enum):\n  RED = 1\n  BLUE = 'b'\n",
      ["Color{n}.RED", "Color{n}.BLUE.value", "Color{n}"]),
+    ("intenum", 1, "import enum\nclass Prio{n}(enum.IntEnum):\n  LOW = 1\n  HIGH = 2\nclass Perm{n}(enum.IntFlag):\n  R = 4\n  W = 2\n",
+     ["Prio{n}.LOW", "Perm{n}.R | Perm{n}.W", "Prio{n}.LOW + 1", "Prio{n}", "[Prio{n}.HIGH, 1]"]),
+    ("libsub", 0, "import collections\nclass MyOD{n}(collections.OrderedDict):\n  pass\nclass MyDD{n}(collections.defaultdict):\n  pass\nclass MyL{n}(list):\n  pass\n",
+     ["MyOD{n}()", "MyDD{n}(int)", "MyL{n}([1])", "[MyOD{n}(), {{}}]", "[MyL{n}(), [1]]"]),
     ("typevarfn", 1, "from typing import TypeVar\nC{n} = TypeVar('C{n}', int, str)\nU{n} = TypeVar('U{n}', bound=float)\ndef tv{n}(a: C{n}, b: U{n}) -> C{n}:\n  return a\ndef ident{n}(a):\n  return a\n",
      ["tv{n}(1, 2.5)", "tv{n}", "ident{n}", "ident{n}('s')"]),
     ("branchret", 1, "def br{n}(a):\n  if isinstance(a, int):\n    return 'i'\n  elif isinstance(a, str):\n    return 1\n  return None\n",
